@@ -738,6 +738,16 @@ func (loc *Location) ListRules(ctx *Context, includeInherited bool) ([]string, e
 	Inc(&loc.stats.ListRules, 1)
 
 	sr, err := loc.SearchFacts(ctx, Map{"rule": "?rule"}, includeInherited)
+	if err != nil || sr == nil {
+		// No results to look at.
+		if err == nil {
+			err = fmt.Errorf("no search results")
+		}
+		Log(ERROR, ctx, "Location.ListRules", "error", err, "location", loc.Name)
+		loc.stats.IncErrors(err)
+		Inc(&loc.stats.TotalTime, timer.Stop())
+		return nil, err
+	}
 
 	acc := make([]string, 0, len(sr.Found))
 	if err == nil {
